@@ -160,12 +160,13 @@ def run(chk):
     from . import c02
     c02.requested_config(chk, "C14.R1")
     group_size_rule(chk)
-    from ..report import AliasedCheck
-    from . import c01, c02, c03, c06
-    c01.run(AliasedCheck(chk, {"C01.R1": "C14.R5", "C01.R5": "C14.R5"}))
-    c02.run(AliasedCheck(chk, {"C02.R1": "C14.R5", "C02.R2": "C14.R5"}))
-    c03.run(AliasedCheck(chk, {"C03.R1": "C14.R5", "C03.R2": "C14.R5", "C03.R5": "C14.R5"}))
-    c06.quantizer_geometry(AliasedCheck(chk, {"C06.R7": "C14.R5"}))
+    if chk.pid == "C14":  # (not when this rule set is itself run on behalf of another property)
+        from ..report import AliasedCheck
+        from . import c01, c02, c03, c06
+        c01.run(AliasedCheck(chk, {"C01.R1": "C14.R5", "C01.R5": "C14.R5"}))
+        c02.run(AliasedCheck(chk, {"C02.R1": "C14.R5", "C02.R2": "C14.R5"}))
+        c03.run(AliasedCheck(chk, {"C03.R1": "C14.R5", "C03.R2": "C14.R5", "C03.R5": "C14.R5"}))
+        c06.quantizer_geometry(AliasedCheck(chk, {"C06.R7": "C14.R5"}))
     from .c03 import grouping_condition
     grouping_condition(chk, "C14.R1")  # a valid group size is honoured by the optimizer and the quantizer alike
     from .c10 import derived_state
